@@ -6,7 +6,7 @@ N.  The recorded trace must be a run of the Lean model `Rws.Pool` (jobs that pan
 steps, op pooltrace) that ends drained with exactly the scripted panics recorded as failed.
 Oracle on the implementation alone: every job body entered exactly once and the probe completes
 (all N workers are still there) within 10 s.
-The accept-loop part (fix F13 in Server::run) is not exercised here (needs the real binary)."""
+The connection part (props/c06_socket.py) runs histories of real TCP connections against the real binary."""
 from vlib import common as C
 from props import pool_common as P
 
@@ -56,12 +56,17 @@ def run(res, tier, seed):
         res.count(f'N={n}')
         res.count('history length ' + ('<=N' if len(hist) <= n else '<=40' if len(hist) <= 40 else '<=120' if len(hist) <= 120 else '<=400'))
         res.count('panics in history: ' + ('0' if 'p' not in hist else '<N' if hist.count('p') < n else '>=N'))
-    res.rule = ('one case = one history of ok/handler-error/panicking jobs (length 1..400) on a fresh real ThreadPool of '
+    _socket_part(res, tier, seed)
+    res.rule = ('(a) one case = one history of ok/handler-error/panicking jobs (length 1..400) on a fresh real ThreadPool of '
                 'N in 1..8 workers followed by the rendezvous probe of N barrier tasks on the same pool; the recorded '
-                'trace is replayed on the model; distinct = distinct (scenario, trace) pairs')
+                'trace is replayed on the model; (b) histories of 1..400 real TCP connections (valid, fault-provoking, early close, RST before/after sending, half-sent, oversized) against the real binary with N in {1,2,3,4,8} workers, then the probe: N-1 idle connections + one request; distinct = distinct (scenario, trace) pairs / histories')
     for k in (0, 1, len(lines) - 1):
         if impl[k] != 'skipped':
             res.sample({'scenario': lines[k][:120], 'implementation': impl[k][:200] + '…', 'model': answers.get(k)})
+
+def _socket_part(res, tier, seed):
+    from props import c06_socket
+    c06_socket.run_part(res, C.Rng(seed ^ 0x50C), tier)
 
 def replay(rp):
     return P.replay('C06', rp, times=10)
